@@ -56,11 +56,14 @@ def specHalfNext (l : Layout) (h : SpecHalf) (e : Ev) (o : Obj) : SpecHalf :=
   | .request _ => { h with prev := o, asked := h.asked + 1 }
   | .ntimer _ => { h with prev := o }
   | .due _ => { h with prev := o, asked := h.asked + 1 }
+  | .fire _ => { h with prev := o }
+  -- a new object: no authority run has decided about it yet, nothing has been asked of it
+  | .create _ => { h with mode := .unknown, prev := o, asked := 0 }
 
 inductive Clause
   | freshAfterBoot | noSpontaneousChange | coldStartNoChange | oncePerChange
   | aloneAllActive | exactlyOne | sameSplit | runEverywhereActive
-  | pausedNodeIsSilent | neverMoreThanAsked | dueCheckRuns
+  | pausedNodeIsSilent | neverMoreThanAsked | dueCheckRuns | pendingFires
   deriving DecidableEq, Repr
 
 def Clause.name : Clause → String
@@ -75,6 +78,7 @@ def Clause.name : Clause → String
   | .pausedNodeIsSilent => "paused_node_is_silent"
   | .neverMoreThanAsked => "never_more_executions_than_requests"
   | .dueCheckRuns => "due_check_runs_on_the_active_node"
+  | .pendingFires => "pending_notification_requested_by_the_active_node"
 
 /-- "An authority change pauses or resumes an object exactly once": counters move with `paused`. -/
 def deltaOk (prev o : Obj) : Bool :=
@@ -82,10 +86,11 @@ def deltaOk (prev o : Obj) : Bool :=
   else if o.paused then o.pauses == prev.pauses + 1 && o.resumes == prev.resumes
   else o.pauses == prev.pauses && o.resumes == prev.resumes + 1
 
-/-- A (re)started process has no authority for a run-once object until an authority run decides — with or without a state
-    file — and has resumed a run-everywhere object exactly once (the stash is internal bookkeeping). -/
+/-- A (re)started process — and a process in which the object has just been created at runtime — has no authority for a
+    run-once object until an authority run decides — with or without a state file — and has resumed a run-everywhere object
+    exactly once (the stash is internal bookkeeping). -/
 def freshLike (c : ObjCfg) (o : Obj) : Bool :=
-  o.paused == (fresh c).paused && o.pauses == (fresh c).pauses && o.resumes == (fresh c).resumes && o.execs == 0
+  o.paused == (fresh c).paused && o.pauses == (fresh c).pauses && o.resumes == (fresh c).resumes && o.execs == 0 && o.reqs == 0
 
 /-- Authority state untouched. -/
 def sameAuth (prev o : Obj) : Bool :=
@@ -98,6 +103,17 @@ def checkWork (c : ObjCfg) (h h' : SpecHalf) (silentWhenPaused : Bool) (o : Obj)
   else if silentWhenPaused && h.prev.paused && o.execs != h.prev.execs then some .pausedNodeIsSilent
   else if o.execs < h.prev.execs || o.execs > h'.asked then some .neverMoreThanAsked
   else if c.kind == .other && o.execs != h.prev.execs then some .noSpontaneousChange
+  else if o.reqs != h.prev.reqs then some .noSpontaneousChange
+  else none
+
+/-- The suppressed-notifications timer with a notification pending on this object.  "A paused endpoint [does not send]
+    notifications for that object": the member that is paused for the checkable requests none (the active one does, and relays
+    the request); the active one requests it, once; no check runs, the authority is untouched. -/
+def checkFire (c : ObjCfg) (h : SpecHalf) (o : Obj) : Option Clause :=
+  if !sameAuth h.prev o || o.execs != h.prev.execs then some .noSpontaneousChange
+  else if h.prev.paused && o.reqs != h.prev.reqs then some .pausedNodeIsSilent
+  else if c.kind == .checkable && c.active && !h.prev.paused && o.reqs != h.prev.reqs + 1 then some .pendingFires
+  else if !(c.kind == .checkable && c.active) && o.reqs != h.prev.reqs then some .noSpontaneousChange
   else none
 
 /-- Checks on the side the event addresses (`h` = bookkeeping before, `h'` after). -/
@@ -114,9 +130,11 @@ def checkOwn (l : Layout) (c : ObjCfg) (h h' : SpecHalf) (e : Ev) (o : Obj) : Op
     | some cl => some cl
     | none =>
       if c.kind == .checkable && c.active && !h.prev.paused && o.execs != h.prev.execs + 1 then some .dueCheckRuns else none
+  | .fire _ => checkFire c h o
+  | .create _ => if !freshLike c o then some .freshAfterBoot else none
   | .upd _ now =>
     if l == .pair && !h.sees && inGrace h.start now && o != h.prev then some .coldStartNoChange
-    else if o.execs != h.prev.execs then some .noSpontaneousChange
+    else if o.execs != h.prev.execs || o.reqs != h.prev.reqs then some .noSpontaneousChange
     else if !deltaOk h.prev o then some .oncePerChange
     else if !touched c && o != h.prev then some .noSpontaneousChange
     else if touched c && h'.mode == .alone && o.paused then some .aloneAllActive
